@@ -1567,9 +1567,13 @@ package resolve
 //@ func Resolvable.printData
 //@   requires r != nil
 //@   modifies *, count(*), nocount(hasNext), nocount(completedEntry), nocount(pendingList)
+// C02: what printExtensions writes verbatim is punctuation and the package's own member names; anything that comes
+// from a subgraph (the names and values of forwarded extensions) is written through printNode, i.e. marshalled
 //@ func Resolvable.printExtensions
+//@   requires r != nil
+//@   at call Resolvable.printBytes: assert {only.punctuation.is.printed.verbatim} arr(arg1) == arr(quote) || arr(arg1) == arr(comma) || arr(arg1) == arr(colon) || arr(arg1) == arr(lBrace) || arr(arg1) == arr(rBrace) || arr(arg1) == arr(literalExtensions)
 //@   modifies *, count(*), nocount(hasNext), nocount(completedEntry), nocount(pendingList)
-//@   trusted prints the extensions object through user-supplied authorizer / rate limiter / tracing hooks, which cannot reach the incremental-delivery printers (unexported methods of Resolvable)
+//@   safety none
 //@ func Resolvable.printErrors
 //@   requires r != nil
 //@   modifies *, count(*), nocount(hasNext), nocount(completedEntry), nocount(pendingList)
